@@ -22,7 +22,8 @@ RULE = ("pairs of quantities built from a random unit AST (1-3 factors prefix*un
         "once and reused in 3-7 operations (every operator, unary minus, powers, a op a) with the results rebased/converted in "
         "place in between (or given an uncertainty), numpy roots/powers np.sqrt/np.cbrt/np.power of a reused quantity, model and "
         "specification fed the creation-time state, operands re-read at the end; plain numbers include Python ints and exactly "
-        "0 / 0.0 / -0.0 on either side of + and -; non-trivial = both operands carry "
+        "0 / 0.0 / -0.0 on either side of + and -; constructors from unit strings with an explicit numerical factor (used only when "
+        "the unit parser reads the text as that number times the intended units); non-trivial = both operands carry "
         "units and differ in units, or a non-integer exponent, or a result whose dimensions vanish; distinct = canonical JSON")
 ASSUMPTIONS = [
     "units: all table units whose definition is not a temperature/logarithmic rule class (those belong to C05); the angle "
@@ -435,6 +436,27 @@ def run_impl(case):
                "l": {"v": fl(np.array(case["lv"], dtype=float)) if isinstance(case["lv"], list) else float(case["lv"]),
                      "e": case.get("le"), "u": [[uid(*f), e[0], e[1]] for f, e in case["lu"]]}}
         req["env"] = env_rows([u[0] for u in req["l"]["u"]])
+        if case.get("k") is not None:
+            # unit string with an explicit numerical factor: '2*m', '1e3*g', 'km*h-1*0.5'
+            from scinumtools.units import Quantity
+            text = factor_text(case)
+            if text is None:
+                return req, "skip"
+            req["kf"] = float(case["k"])
+            val = list(case["lv"]) if isinstance(case["lv"], list) else case["lv"]
+            try:
+                if case.get("lrele") is not None:
+                    lo_ = [abs(x) * case["lrele"] / 100 for x in val] if isinstance(val, list) else abs(val) * case["lrele"] / 100
+                    req["l"]["e"] = lo_
+                    q = Quantity(val, text, rele=case["lrele"])
+                else:
+                    q = Quantity(val, text, abse=case.get("le"))
+                imp = mark_nonfinite(observe(q))
+            except (ZeroDivisionError, OverflowError, FloatingPointError):
+                imp = "nonfinite"
+            except Exception:
+                imp = "err"
+            return req, imp
         try:
             keep = []
             q, how = build("dict", case["lv"], case.get("le"), case["lu"], case.get("lform"), case.get("ldtype"), keep)
@@ -567,6 +589,25 @@ def run_impl(case):
 def rng_free_choice(case):
     """deterministic choice between abse() and rele() for the result-touching step"""
     return (len(json.dumps(case, default=str)) % 2) == 0
+
+
+def factor_text(case):
+    """'<k>*<units>' (or the number last) if the unit parser reads it as number k times the intended units, else None"""
+    from scinumtools.units.unit_solver import UnitSolver
+    k = case["k"]
+    ks = ("%g" % k) if k == int(k) and abs(k) < 1e6 else repr(float(k))
+    ks = ks.replace("e-0", "e-").replace("e+0", "e").replace("e+", "e")
+    ut = text_of(case["lu"])
+    text = (ut + "*" + ks) if case.get("klast") else (ks + "*" + ut)
+    try:
+        atom = UnitSolver(text)
+        want = {uid(*f): Q(e[0], e[1]) for f, e in case["lu"]}
+        got = {u: Q(fr.num, fr.den) for u, fr in atom.baseunits.items() if fr.num != 0}
+        if got == want and float(atom.magnitude) == float(k):
+            return text
+    except Exception:
+        pass
+    return None
 
 
 def unit_attr(tu):
@@ -737,7 +778,7 @@ def _gen_case(rng):
                 if c["p"][0] % c["p"][1] != 0 and (isinstance(v, list) and min(v) <= 0 or not isinstance(v, list) and v <= 0):
                     c["lv"] = [abs(x) for x in v] if isinstance(v, list) else abs(v)
     c["mode"] = mode
-    c["le"] = gen_err(rng, c["lv"]) if c.get("lu") is not None else None
+    c["le"] = gen_err(rng, c["lv"]) if c.get("lu") is not None and c.get("lrele") is None else None
     if "rv" in c:
         c["re"] = gen_err(rng, c["rv"]) if c.get("ru") is not None else None
     if c["op"] in ("add", "sub", "mul", "div") and c.get("lu") is not None and rng.random() < 0.15:
@@ -855,7 +896,14 @@ def gen_ctor(rng):
             if uid("", s) not in seen:
                 seen.add(uid("", s))
                 lu.append((("", s), (1, 1)))
-    return {"op": "new", "lv": gen_value(rng), "lu": lu}
+    c = {"op": "new", "lv": gen_value(rng), "lu": lu}
+    if rng.random() < 0.4:
+        c["k"] = rng.choice([2, 1e3, 0.5, 1e-10, 2.5, 12, 1e-3, -3, 60, 0.25])
+        if rng.random() < 0.3:
+            c["klast"] = True
+        if rng.random() < 0.3:
+            c["lrele"] = rng.choice([1, 5, 10])
+    return c
 
 
 def U(*fs):
@@ -930,6 +978,12 @@ CORPUS = [
     # constructor with units whose dimensions cancel
     {"op": "new", "lv": 4.0, "lu": U(("c", "m", 1, 1), ("", "m", -1, 1)), "le": 0.1},
     {"op": "new", "lv": 3.0, "lu": U(("k", "Hz", 1, 1), ("", "s", 1, 1), ("", "%", 1, 1))},
+    # unit strings with an explicit numerical factor
+    {"op": "new", "lv": 3.0, "lu": U(("", "m", 1, 1)), "le": 0.1, "k": 2},
+    {"op": "new", "lv": 1.54, "lu": U(("", "m", 1, 1)), "le": 0.02, "k": 1e-10},
+    {"op": "new", "lv": [1.0, 2.0], "lu": U(("", "g", 1, 1)), "lrele": 10, "k": 1e3},
+    {"op": "new", "lv": 3.0, "lu": U(("k", "m", 1, 1), ("", "h", -1, 1)), "le": 0.1, "k": 0.5},
+    {"op": "new", "lv": 3.0, "lu": U(("k", "m", 1, 1), ("", "m", -1, 1)), "le": 0.1, "k": -3, "klast": True},
     {"op": "newq", "lv": 4.0, "lu": [], "le": 0.2, "rv": 2.5, "ru": U(("c", "m", 1, 1)), "re": 0.1},
     {"op": "newq", "lv": -3.0, "lu": [], "rv": 2.5, "ru": U(("c", "m", 1, 1)), "re": 0.1},
     {"op": "newq", "lv": [1.0, 2.0], "lu": [], "le": 0.1, "rv": 2.0, "ru": U(("k", "m", 1, 1), ("", "m", -1, 1))},
@@ -958,6 +1012,9 @@ def judge(ctx, case, req, imp, ans, prop="C06"):
     """compare one case; returns True if judged"""
     op = case["op"]
     ctx.count("op." + op)
+    if imp == "skip":
+        ctx.count("unit-text-not-parsed-as-intended")
+        return False
     if "ok" not in ans:
         ctx.disagreement(op, case, "driver error %s" % (ans,))
         return True
@@ -1057,6 +1114,9 @@ def describe(case):
         s += " [as np.%s]" % {"sqrt": "sqrt(q)", "cbrt": "cbrt(q)", "nppow": "power(q, p)"}[case["numpy"]]
     if case.get("aug"):
         s += " [augmented assignment]"
+    if case.get("k") is not None:
+        s = "Quantity(%r%s, '%s')" % (case["lv"], (", rele=%s" % case["lrele"]) if case.get("lrele") is not None else
+                                      ("" if case.get("le") is None else ", abse=%g" % case["le"]), factor_text(case))
     if case["op"] == "rebase":
         s += " .rebase()"
     if case.get("history"):
